@@ -111,11 +111,12 @@ type jBScenario struct {
 
 // ---------------------------------------------------------------- the world of one scenario
 type pmsg struct {
-	from, to int
-	bcast    bool
-	data     []byte
-	after    *pmsg // must be delivered first
-	done     bool
+	from, to   int
+	bcast      bool
+	data       []byte
+	after      *pmsg // must be delivered first
+	needReveal int   // > 0: held until the party of this rank has broadcast its key
+	done       bool
 }
 
 type bparty struct {
@@ -187,6 +188,27 @@ func (w *world) keyBytes(exp []*big.Int) []byte {
 	return pk.Bytes()
 }
 
+// canon: the canonical serialisation of a key that parses (the decoder accepts some non-canonical encodings: flag bits,
+// trailing bytes); nil when it does not parse
+func (w *world) canon(payload []byte) []byte {
+	if !w.keyParses(payload) {
+		return nil
+	}
+	if w.pkg == "bls" {
+		p, _ := curve.NewG2FromBytes(payload)
+		return p.Bytes()
+	}
+	var xys ps.XYs
+	asn1.Unmarshal(payload, &xys)
+	x, _ := curve.NewG2FromBytes(xys.X)
+	pk := ps.PK{X: x}
+	for _, yb := range xys.Ys {
+		y, _ := curve.NewG2FromBytes(yb)
+		pk.Y = append(pk.Y, y)
+	}
+	return pk.Bytes()
+}
+
 func (w *world) registerKey(exp []*big.Int) []byte {
 	kb := w.keyBytes(exp)
 	red := make([]*big.Int, len(exp))
@@ -196,6 +218,12 @@ func (w *world) registerKey(exp []*big.Int) []byte {
 	w.keyExp[string(kb)] = red
 	d := sha256.Sum256(kb)
 	w.commitOf[string(d[:])] = string(kb)
+	// the inverse key as well (a flipped sign flag of an encoding decodes to it)
+	neg := make([]*big.Int, len(exp))
+	for i, e := range red {
+		neg[i] = new(big.Int).Mod(new(big.Int).Neg(e), order)
+	}
+	w.keyExp[string(w.keyBytes(neg))] = neg
 	return kb
 }
 
@@ -281,7 +309,7 @@ func (w *world) observe(p *bparty, from int, data []byte) {
 		}
 		p.commits[from] = true
 		v := ""
-		if kb, ok := w.commitOf[string(payload)]; ok {
+		if kb, ok := w.commitOf[string(payload)]; ok && w.keyExp[kb] != nil {
 			v = w.keyExp[kb][0].String()
 		} else {
 			w.fresh++
@@ -301,7 +329,7 @@ func (w *world) observe(p *bparty, from int, data []byte) {
 		}
 		p.reveals[from] = true
 		v := "-1" // a well-formed key whose exponent the harness does not know (does not happen in the catalogue)
-		if e, ok := w.keyExp[string(payload)]; ok {
+		if e, ok := w.keyExp[string(w.canon(payload))]; ok {
 			v = e[0].String()
 		}
 		p.events = append(p.events, jEvent{K: "R", From: from, V: v})
@@ -341,6 +369,54 @@ func (w *world) otherKey(p *bparty) []byte {
 	e := w.mirrorSk(p)
 	e[0] = new(big.Int).Add(e[0], big.NewInt(1))
 	return w.registerKey(e)
+}
+
+// badKey: a right-sized key derived from the deviant's own one that is NOT what an honest party would reveal: bit flips of a
+// valid encoding (almost surely no curve point), all 0xff (coordinates >= the field modulus), all zero (the identity: a
+// valid point), a flipped flag bit / a trailing byte (non-canonical encodings the decoder may accept).  ps: one component.
+func (w *world) badKey(p *bparty, kind string) []byte {
+	own := w.keyBytes(w.mirrorSk(p))
+	mod := func(b []byte) []byte {
+		b = append([]byte{}, b...)
+		switch kind {
+		case "badkey-flip1":
+			b[1] ^= 1
+		case "badkey-flip40":
+			b[40] ^= 4
+		case "badkey-flip70":
+			b[70] ^= 0x10
+		case "badkey-fliplast":
+			b[len(b)-1] ^= 1
+		case "badkey-ff":
+			for i := range b {
+				b[i] = 0xff
+			}
+		case "badkey-zero":
+			for i := range b {
+				b[i] = 0
+			}
+		case "badkey-flagbit":
+			b[0] ^= 0x80
+		case "badkey-long":
+			b = append(b, 0)
+		}
+		return b
+	}
+	if w.pkg == "bls" {
+		return mod(own)
+	}
+	var xys ps.XYs
+	asn1.Unmarshal(own, &xys)
+	switch p.id % 3 { // which component is spoilt depends on who deviates
+	case 0:
+		xys.X = mod(xys.X)
+	case 1:
+		xys.Ys[0] = mod(xys.Ys[0])
+	default:
+		xys.Ys[len(xys.Ys)-1] = mod(xys.Ys[len(xys.Ys)-1])
+	}
+	out, _ := asn1.Marshal(xys)
+	return out
 }
 
 func tagged(tag byte, payload []byte) []byte { return append([]byte{tag}, payload...) }
@@ -477,6 +553,60 @@ func (w *world) outgoing(p *bparty, data []byte, bcast bool, to int) {
 			} else {
 				add(d, data, nil)
 			}
+		case "badkey-flip1", "badkey-flip40", "badkey-flip70", "badkey-fliplast", "badkey-ff", "badkey-zero", "badkey-flagbit", "badkey-long":
+			// a right-sized key that is not the honest one, WITH a matching commitment
+			bad := w.badKey(p, dv.kind)
+			if c := w.canon(bad); c != nil && w.keyExp[string(c)] != nil {
+				dg := sha256.Sum256(bad)
+				w.commitOf[string(dg[:])] = string(c) // a commitment to these bytes commits to that key
+			}
+			switch tag {
+			case tagCommit:
+				dg := sha256.Sum256(bad)
+				add(d, tagged(tagCommit, dg[:]), nil)
+			case tagReveal:
+				add(d, tagged(tagReveal, bad), nil)
+			default:
+				add(d, data, nil)
+			}
+		case "commit-placeholder-empty", "commit-placeholder-onebyte", "commit-placeholder-short":
+			// a placeholder instead of the commitment; the real commitment only after the receiver has revealed its key, then
+			// the key.  First value wins: the placeholder is the commitment, the key cannot match it.
+			switch tag {
+			case tagCommit:
+				ph := []byte{tagCommit}
+				if dv.kind == "commit-placeholder-onebyte" {
+					ph = []byte{tagCommit, 7}
+				} else if dv.kind == "commit-placeholder-short" {
+					ph = append([]byte{tagCommit}, payload[:16]...)
+				}
+				first := add(d, ph, nil)
+				late := add(d, data, first)
+				late.needReveal = d
+				dv.held = append(dv.held, late)
+			case tagReveal:
+				var late *pmsg
+				for _, h := range dv.held {
+					if h.to == d {
+						late = h
+					}
+				}
+				add(d, data, late)
+			default:
+				add(d, data, nil)
+			}
+		case "short-share-first":
+			if tag == tagShare && victim {
+				add(d, data, add(d, []byte{tagShare, 9}, nil))
+			} else {
+				add(d, data, nil)
+			}
+		case "empty-reveal-then-good":
+			if tag == tagReveal {
+				add(d, data, add(d, []byte{tagReveal}, nil))
+			} else {
+				add(d, data, nil)
+			}
 		case "junk":
 			if tag == tagShare {
 				j := add(d, []byte{}, nil)
@@ -558,6 +688,17 @@ func (sc *sched) String() string {
 }
 
 func (w *world) held(m *pmsg) bool {
+	if m.needReveal > 0 {
+		revealed := false
+		for _, b := range w.parties[m.needReveal-1].bcasts {
+			if b == 3 {
+				revealed = true
+			}
+		}
+		if !revealed {
+			return true
+		}
+	}
 	sc := w.sched
 	if sc == nil || m.from != sc.x || m.to != sc.y || len(m.data) == 0 {
 		return false
@@ -705,6 +846,11 @@ func runBScenario(id int, pkg string, n, t int, dv *deviation, seed uint64, sch 
 	if pkg == "ps" {
 		w.comps = 3
 	}
+	zeroKey := make([]*big.Int, w.comps)
+	for i := range zeroKey {
+		zeroKey[i] = big.NewInt(0)
+	}
+	w.registerKey(zeroKey) // the identity (its encoding is all zero) is a key whose exponent is known
 	sc := jBScenario{Kind: "bdkg", Pkg: pkg, ID: id, N: n, T: t, Deviation: "none", Victims: []int{}, Schedule: w.sched.String()}
 	if dv != nil {
 		sc.Deviant, sc.Deviation = dv.party, dv.kind
@@ -889,7 +1035,7 @@ func (w *world) collect(sc *jBScenario) {
 			jp.ExpsMatch = len(pks) == w.n
 			exps := make([][]*big.Int, 0, w.n)
 			for _, k := range pks {
-				e, ok := w.keyExp[string(k)]
+				e, ok := w.keyExp[string(w.canon(k))]
 				if !ok {
 					jp.ExpsMatch = false
 					e = make([]*big.Int, w.comps)
@@ -956,7 +1102,9 @@ func (w *world) collect(sc *jBScenario) {
 // ---------------------------------------------------------------- the catalogue
 var deviationKinds = []string{"offpoly", "wrongreveal", "wrongcommit", "revealfirst", "dupgood", "dupbad",
 	"withhold-share", "withhold-commit", "withhold-reveal", "trunc-share", "long-share", "trunc-reveal",
-	"trunc-reveal-then-good", "empty-share-first", "empty-commit", "commit-lastbyte", "commit-firstbyte", "junk"}
+	"trunc-reveal-then-good", "empty-share-first", "empty-commit", "commit-lastbyte", "commit-firstbyte", "junk",
+	"badkey-flip1", "badkey-flip40", "badkey-flip70", "badkey-fliplast", "badkey-ff", "badkey-zero", "badkey-flagbit", "badkey-long",
+	"commit-placeholder-empty", "commit-placeholder-onebyte", "commit-placeholder-short", "short-share-first", "empty-reveal-then-good"}
 
 func victimSets(p *prng, n, deviant int, all bool) []map[int]bool {
 	var honest []int
@@ -1130,6 +1278,63 @@ func reuseFamily(r *prng, id int, pkg string, n, t int, thorough bool, only stri
 	return id
 }
 
+// runMalformed: the malformed / placeholder part of the catalogue for both packages, one record per scenario in the shape the
+// C10 check reads from the other engines (entry, class, panic): a panic of KeyGen or OnMsg of an honest party, or a KeyGen that
+// does not return, on input a peer can send.
+type jMal struct {
+	Kind     string   `json:"kind"`
+	Entry    string   `json:"entry"`
+	Class    string   `json:"class"`
+	Panic    bool     `json:"panic"`
+	Stuck    bool     `json:"stuck"`
+	Verdicts []string `json:"verdicts"`
+	Scenario int      `json:"scenario"`
+	N        int      `json:"n"`
+	T        int      `json:"t"`
+}
+
+func runMalformed(r *prng, thorough bool) {
+	kinds := []string{"trunc-share", "long-share", "trunc-reveal", "trunc-reveal-then-good", "empty-share-first", "empty-commit", "junk",
+		"badkey-flip1", "badkey-flip40", "badkey-flip70", "badkey-fliplast", "badkey-ff", "badkey-zero", "badkey-flagbit", "badkey-long",
+		"commit-placeholder-empty", "commit-placeholder-onebyte", "commit-placeholder-short", "short-share-first", "empty-reveal-then-good"}
+	nts := [][2]int{{3, 2}, {3, 3}}
+	if thorough {
+		nts = [][2]int{{2, 2}, {3, 2}, {3, 3}, {4, 3}, {4, 4}}
+	}
+	id := 0
+	for _, pkg := range []string{"bls", "ps"} {
+		for _, nt := range nts {
+			for _, kind := range kinds {
+				if pkg == "ps" && kind == "long-share" {
+					continue
+				}
+				deviant := 1 + r.intn(nt[0])
+				victims := map[int]bool{}
+				for i := 1; i <= nt[0]; i++ {
+					if i != deviant {
+						victims[i] = true
+					}
+				}
+				id++
+				sc := runBScenario(id, pkg, nt[0], nt[1], &deviation{kind: kind, party: deviant, victims: victims}, r.next())
+				m := jMal{Kind: "dkgmal", Entry: "dkg/" + pkg + "/KeyGen+OnMsg", Class: kind, Stuck: sc.Stuck, Scenario: id, N: nt[0], T: nt[1]}
+				for _, p := range sc.Parties {
+					if p.Honest {
+						m.Verdicts = append(m.Verdicts, p.Verdict)
+						if p.Verdict == "panic" || p.Verdict == "running" {
+							m.Panic = true
+						}
+					}
+				}
+				if sc.Stuck {
+					m.Panic = true
+				}
+				emit(m)
+			}
+		}
+	}
+}
+
 // runSchedules: the schedule family alone, for one package (C08 uses it for mpc/ps)
 func runSchedules(r *prng, thorough bool, pkg string) {
 	nts := [][2]int{{3, 2}, {3, 3}, {4, 3}}
@@ -1205,7 +1410,8 @@ func runBackend(r *prng, thorough bool, only string) {
 	}
 	if !thorough {
 		// quick: a few more PS scenarios
-		for _, kind := range []string{"none", "offpoly", "wrongreveal", "withhold-commit", "dupbad", "trunc-share"} {
+		for _, kind := range []string{"none", "offpoly", "wrongreveal", "withhold-commit", "dupbad", "trunc-share", "badkey-flip40",
+			"badkey-ff", "badkey-zero", "badkey-flagbit", "commit-placeholder-empty", "commit-placeholder-short", "empty-reveal-then-good"} {
 			if (only == "honest") != (kind == "none") && only != "all" {
 				continue
 			}
